@@ -6,8 +6,10 @@ All theorems are about `run h`, the state machine of `Model/Link.lean` (a transc
 `add_item`, `setup_global`, `MIR_load_module`, `MIR_load_external`, `MIR_link` and of the places
 where the interpreter/generator read an import's address) applied to an ARBITRARY history `h` of
 API calls, and compare it with `lastDef h n`, which is computed from the list `h` alone
-(`Model/LinkSpec.lean`).  Histories end at the first error: `(run h).err = none` says that no
-call of the history reported one.
+(`Model/LinkSpec.lean`).  `(run h).err = none` says that no call of the history reported an error.
+Histories end at the first error, except after a failed link, which is survivable (section 3:
+`failed_link_leaves_env`, `failed_link_keeps_queue`); the correspondence check follows such
+histories on the real code.
 
 What is *not* proved here: that the C code behaves like `run` (that is the correspondence check
 `checks/c13.py`), and nothing about modules loaded twice as the same `MIR_module_t` object.
@@ -129,6 +131,63 @@ theorem link_error_kind (s : State) (ifc : Option Iface) (res : Resolver) (e : E
 
 example : (run [.loadModule 1 exB, .link (some .gen) resG]).err = some .undeclaredOpRef := by decide
 example : (run [.loadModule 1 [.imp 6 .ptr], .link (some .gen) resG]).err = none := by decide
+
+/-! ### a failed link is survivable and defines nothing it did not resolve
+
+`State.fatal` is false after `MIR_undeclared_op_ref_error`: the history goes on (the error function
+longjmps out of `MIR_link`; the caller may load the missing name and link again). -/
+
+/-- Whatever its outcome, a link changes the environment only by entering, for names that had NO
+definition, the address the resolver answered. -/
+theorem link_env_grows (s : State) (ifc : Option Iface) (res : Resolver) (n : Name) :
+    (link s ifc res).env.lookup n = s.env.lookup n ∨
+    (s.env.lookup n = none ∧ ∃ a, res n = some a ∧ (link s ifc res).env.lookup n = some (.ext a)) := by
+  have h := resolveQueue_grows res s.queue s.env n
+  unfold link
+  generalize resolveQueue res s.queue s.env = r at h ⊢
+  obtain ⟨env', q', e⟩ := r
+  cases e with
+  | some e => exact h
+  | none => cases ifc <;> exact h
+
+/-- **A failed link leaves the environment alone**: a name the resolver does not resolve (no resolver,
+or it answers NULL) has, after ANY link — in particular one that fails on that very name — exactly
+the definition it had before; an undefined name stays undefined (it is not entered with address
+NULL), so linking again fails again and the first real definition is not a redefinition. -/
+theorem failed_link_leaves_env (s : State) (ifc : Option Iface) (res : Resolver) (n : Name)
+    (hres : res n = none) : (link s ifc res).env.lookup n = s.env.lookup n := by
+  rcases link_env_grows s ifc res n with h | ⟨_, a, ha, _⟩
+  · exact h
+  · rw [hres] at ha; cases ha
+
+/-- a failed link is not fatal, moves no module out of the queue, and changes nothing of the queued
+modules but their (partial) bindings, which the next link computes again -/
+theorem failed_link_keeps_queue (s : State) (ifc : Option Iface) (res : Resolver) (e : Err)
+    (hs : s.err = none) (he : (link s ifc res).err = some e) :
+    (link s ifc res).fatal = false ∧ (link s ifc res).done = s.done ∧
+    (link s ifc res).redefOk = s.redefOk ∧
+    Forall2 sameButBinds s.queue (link s ifc res).queue := by
+  have hk := link_error_kind s ifc res e hs he
+  subst hk
+  have hshape := resolveQueue_shape res s.queue s.env
+  refine ⟨by simp [State.fatal, he], ?_⟩
+  unfold link at he ⊢
+  generalize resolveQueue res s.queue s.env = r at he hshape ⊢
+  obtain ⟨env', q', e'⟩ := r
+  cases e' with
+  | some e'' => exact ⟨rfl, rfl, hshape⟩
+  | none => cases ifc <;> simp [hs] at he
+
+/-- the round-3 seeded change as a history: failed links (no resolver), then the first real `f` -/
+def failH : List Op :=
+  [.loadModule 1 [.imp 5 .call], .link (some .interp) (fun _ => none), .link (some .gen) (fun _ => none),
+   .loadModule 4 [.exp 5, .func 5], .link (some .interp) (fun _ => none), .call]
+
+example : (run (failH.take 2)).err = some .undeclaredOpRef ∧ (run (failH.take 2)).env.lookup 5 = none ∧
+    (step { run (failH.take 2) with err := none } failH[2]).err = some .undeclaredOpRef ∧
+    (step { run (failH.take 3) with err := none } failH[3]).err = none ∧
+    (run failH).fatal = false ∧ (run failH).env.lookup 5 = some (.func 4) ∧
+    (run failH).done.map (fun m => (m.id, m.binds)) = [(1, [(5, .func 4)]), (4, [])] := by decide
 
 /-! ## 4. redefinition -/
 
